@@ -1327,6 +1327,7 @@ func stepLeader(r *raft, m *pb.Message) error {
 			return ErrProposalDropped
 		}
 
+		pendingConfIndex := r.pendingConfIndex
 		for i := range m.GetEntries() {
 			e := m.GetEntries()[i]
 			var cc pb.ConfChangeI
@@ -1368,6 +1369,11 @@ func stepLeader(r *raft, m *pb.Message) error {
 		}
 
 		if !r.appendEntry(m.GetEntries()...) {
+			// Nothing was appended, so no new configuration change is pending
+			// either: do not let a dropped proposal keep later configuration
+			// changes (and the automatic exit from a joint configuration)
+			// waiting for an index that does not exist.
+			r.pendingConfIndex = pendingConfIndex
 			return ErrProposalDropped
 		}
 		r.bcastAppend()
